@@ -23,6 +23,7 @@ RULE = ('case = one accepted generated document (both attribution modes; a third
         '(the original document\'s token snapshot must not move), then a fresh copy is taken and 3..10 edits are applied to the original '
         '(the copy\'s snapshot must not move). One evaluation = one copy checked or one independence check per edit; non-trivial = the '
         'model has >=2 tokens, resp. the edit changed its own side; distinct = hash(text, path, op log).')
+RULE += (' Also (round 9): in-place arithmetic histories before copying.')
 ASSUMPTIONS = ['an edit that raises ends that edit sequence (C19 decides what refusals leave behind)']
 
 _corpus = None
